@@ -44,6 +44,9 @@ C={
  'C13':('fault_enumeration','fault enumeration over FS-call indices and stop points with an online release monitor',
         'For each generated sequence every FS-call index is failed in two flavours, pairs are sampled and Stop is issued after every prefix; handle-level monitors (unique ids, released/consumed state) detect double release, use after release and leaks; the model says which handle each release must hit.',
         'trusted: fsx handles and model; exhaustive over (sequence, single fault, stop prefix), sampled over sequences and pairs'),
+ 'C18':('exploration','reference-model monitor (tree of byte arrays) over multi-session sequences, refcount validator hook, porcupine register checking, crash observation and the Go race detector',
+        'One to three sessions on a fresh ramfs instance run interleaved operation sequences with extreme offsets; every result is compared with a reference tree model; after all fids are clunked the refcount validator (hook) must be clean and a fresh attach must see the model tree. Concurrent rounds with 2-8 sessions check per-file read/write histories with porcupine (register model), the validator, crashes and race reports in ramfs/.',
+        'trusted: tree model (DESIGN App. B) incl. its relations; hooks VerifNewServer/VerifValidate'),
  'C20':('exploration','spy-session trace monitor plus server fid-table comparison',
         'Operation sequences on CFileSys over a spy Session in front of the real SFileSys: every operation must issue exactly the corresponding call on the entry own fid with normalised names, completed walks must yield usable entries, and the server fid table (hook) must always equal the fids of live entries and be empty at the end.',
         'trusted: spy accounting of entry->fid; reference path normaliser; hook'),
